@@ -30,6 +30,7 @@ def run(ctx, res):
     pair_indices(ctx, res, "C12.R4")
     block_ranges_sorted(ctx, res, "C12.R5")
     every_line_visited(ctx, res, "C12.R6")
+    dedent_ranges_reach_deletion(ctx, res, "C12.R7")
 
 
 def dedent_amount_let(P, b):
@@ -374,6 +375,9 @@ def pair_indices(ctx, res, rule):
                 continue
             mp = m[0]
             mclo = T.peel(mp["args"][0])
+            if T.shortened(T.render(mp["recv"])):
+                res.add(Finding(rule, fn, "splice-complete", "the kept child markers are spliced through `%s`: a kept child's marker is dropped or moved" % T.render(mp["recv"])[-60:], loc=T.loc(n)))
+                continue
             # slice offset: child_markers[a..b]
             idxs = [x for x in T.nodes(mp["recv"], "index")]
             off = None
@@ -574,3 +578,55 @@ def every_line_visited(ctx, res, rule):
             n += 1
             res.holds(rule, fn, "line-walk:" + label)
     res.floor(rule, "paths of one step of the line walk", n, 10)
+
+
+
+def dedent_ranges_reach_deletion(ctx, res, rule):
+    """The dedent happens at all: `formatter::format` visits every removed position in order, asks every block formatter for
+    the block between a head and its tail, collects what they return, and `merge_ranges` takes *every* collected range into
+    the list that is deleted (its outer loop runs while new ranges remain)."""
+    P = ctx.lib
+    b = P.fn("formatter::format")
+    fn = fshort(b)
+    loc = T.loc(b["tree"])
+    ps = [p_["pat"].get("name") for p_ in b["params"]]
+    if len(ps) != 4:
+        res.cannot(rule, fn, "params", "format(content, removed_pos, formatters, structure_formatters) expected", loc)
+        return
+    rp, sf = ps[1], ps[3]
+    # every removed position
+    lets = {s_["pat"]["name"]: T.render(s_["init"]) for s_ in T.nodes(b["tree"], "let") if s_["pat"].get("p") == "bind" and s_.get("init") is not None}
+    trav = [T.render(n["iter"]) for n in T.nodes(b["tree"], "for")] + [T.render(n["recv"]) for n in T.nodes(b["tree"], "mcall") if n["name"] in ("fold", "for_each", "map") and rp in T.render(n["recv"])]
+    trav = [lets.get(t_, t_) for t_ in trav]
+    main = [t_ for t_ in trav if t_.startswith(rp)]
+    if main and all(not T.shortened(t_) for t_ in main) and any(t_ in ("%s.iter()" % rp, rp, "%s.iter().enumerate()" % rp) for t_ in main):
+        res.holds(rule, fn, "all-positions", main[0])
+    else:
+        res.add(Finding(rule, fn, "all-positions", "the removed positions are traversed through %s, not all of `%s` in order" % (main or trav, rp), loc=loc))
+    # every block formatter, result collected
+    calls = [(n, par) for n, par in T.walk(b["tree"]) if n.get("k") == "mcall" and n["name"] == "format" and len(n["args"]) == 3]
+    okf = False
+    for n, par in calls:
+        over = [T.render(q["recv"]) for q in par if q.get("k") == "mcall" and q["name"] in ("fold", "flat_map", "map", "for_each") and sf in T.render(q["recv"])] + \
+               [T.render(q["iter"]) for q in par if q.get("k") == "for" and sf in T.render(q["iter"])]
+        kept = any(q.get("k") == "mcall" and q["name"] in ("extend", "push", "append", "flat_map", "collect") for q in par)
+        if over and over[0] in ("%s.iter()" % sf, sf) and kept:
+            okf = True
+    if okf:
+        res.holds(rule, fn, "all-block-formatters", "%s.iter(), results collected" % sf)
+    else:
+        res.add(Finding(rule, fn, "all-block-formatters", "the block formatters are not all asked (`%s.iter()`) with their ranges collected: an unwrapped block is not dedented" % sf, loc=loc))
+    # merge_ranges takes every new range
+    m = P.fn("formatter::merge_ranges")
+    mps = [p_["pat"].get("name") for p_ in m["params"]]
+    new = mps[1] if len(mps) == 2 else None
+    newl = {new} | {s_["pat"]["name"] for s_ in T.nodes(m["tree"], "let") if s_["pat"].get("p") == "bind" and s_.get("init") is not None and T.render(s_["init"]) == new}
+    outer = [l_ for l_ in T.nodes(m["tree"], "loop") if "while_cond" in l_] + [f_ for f_ in T.nodes(m["tree"], "for")]
+    conds = [T.render(l_["while_cond"]) if "while_cond" in l_ else "for " + T.render(l_["iter"]) for l_ in outer]
+    ok_forms = set()
+    for nm in newl:
+        ok_forms |= {"!%s.is_empty()" % nm, "let Some(new_range) = %s.pop()" % nm, "(%s.len() > 0)" % nm, "for %s.into_iter().rev()" % nm}
+    if any(c_ in ok_forms or (c_.startswith("let Some(") and any(c_.endswith("= %s.pop()" % nm) for nm in newl)) for c_ in conds):
+        res.holds(rule, fshort(m), "all-new-ranges", [c_ for c_ in conds][0][:60])
+    else:
+        res.add(Finding(rule, fshort(m), "all-new-ranges", "merge_ranges does not run while new ranges remain (loop conditions: %s): dedent ranges never reach the deletion" % conds, loc=T.loc(m["tree"])))
